@@ -416,3 +416,72 @@ def replay_hashseed(r):
 
 CHECKS['C12'] = c12
 REPLAYERS['hash-seed'] = replay_hashseed
+
+
+def c15(prop, pool, verdict, tier, seed):
+    from fin import registry
+    from rtc import prop_c15
+    from vcheck import load_known
+    e1 = run_e1(prop, pool, verdict, tier, seed)
+    fz = run_fuzz(prop, pool, verdict, tier, seed)
+    e3 = registry.check()
+    for f in e3['failures']:
+        rp = write_replay(prop, 'registry-' + f['clause'], {'kind': 'registry', 'property': prop, 'obligation': 'SCFGIO::' + f['clause'], 'detail': f})
+        verdict.violation(rp)
+    d = prop_c15.run(pool, tier, seed)
+    by = {}
+    for f in d['fails']:
+        by.setdefault(f['stage'] + ':' + f['kind'], []).append(f)
+    for k, fs in sorted(by.items()):
+        f = min(fs, key=lambda x: (len(str(x['graph'])), str(x['graph'])))
+        rp = write_replay(prop, 'roundtrip-' + k, {'kind': 'roundtrip', 'property': prop, 'graph': f['graph'], 'payload': f.get('payload', 'plain'),
+                                                   'stage': f['stage'], 'check': f['kind'], 'detail': f['detail'], 'failing_inputs_in_scope': len(fs)})
+        verdict.violation(rp)
+    known = []
+    for f in load_known().get('findings', []):
+        if f['property'] == prop and f.get('kind') == 'bounded-region':
+            try:
+                from numba_scfg.core.datastructures.ast_transforms import AST2SCFG
+                AST2SCFG(f['witness']['source']).to_dict()
+                known.append(f['id'] + ' witness no longer fails')
+            except Exception as e:
+                verdict.known.append('%s %s [region: %s] witness still fails: %r' % (f['id'], f['what'], f['region'], e))
+                known.append(f['id'] + ' still fails')
+    cov = coverage_from(e1, fz, 'C15: E3 (complete over the block classes): every class defined in basic_block.py is registered (or never instantiated / a recorded finding) and an '
+                        'instance with non-default values in every field survives to_dict -> from_dict -> to_dict unchanged. Bounded: dictionary and YAML round trips and '
+                        'write-read-write-read chains of every enumerated closed CFG at the four stage prefixes (input, join, +loop, +branch), field-by-field comparison of ordered '
+                        'successors, back edges, tables, assignments, nesting, headers, exiting blocks, parents; plus bytecode graphs. to_dict/from_dict themselves are tier B '
+                        '(work-list over a heterogeneous hierarchy, yaml): no deductive contract is within reach.')
+    cov['obligations'] += e3['obligations']
+    cov['discharged'] += e3['discharged']
+    cov['finite_domain'] = {'domain': e3['domain'], 'backend': 'finite-enumeration', 'obligations': e3['obligations'], 'known_unregistered': e3['known_unregistered']}
+    cov['evaluations'] = d['roundtrips'] + fz['evaluations']
+    cov['distinct_nontrivial'] = d['nontrivial']
+    cov['rule'] = ('every closed CFG with <= %d nodes and seeded random ones up to 12/18 nodes (every third with bytecode payload), each written and re-read at 4 stage prefixes as dict and '
+                   'as YAML, plus 3 bytecode functions before/after restructuring; %d graphs; non-trivial = cycle or branch' % (d['exhaustive_nmax'], d['graphs']))
+    cov['exhaustive'] = True
+    cov['samples'] = cov['samples'] + e3['samples'][:2] + d['samples'][:2]
+    cov['known_findings'] = known
+    return 'other', cov, e1['assumptions'] + ['yaml.safe_load trusted', 'block names restricted to those the generator and front ends produce (digits, identifiers)']
+
+
+def replay_roundtrip(r):
+    from rtc import prop_c15
+    if isinstance(r['graph'], str):
+        fs = [f for n, ff in prop_c15.bytecode_cases() for f in ff]
+    else:
+        fs = prop_c15.check_graph({k: tuple(v) for k, v in r['graph'].items()}, r.get('payload', 'plain'))
+    print('replay round trip: %s' % fs[:2])
+    return 1 if fs else 0
+
+
+def replay_registry(r):
+    from fin import registry
+    bad = [f for f in registry.check()['failures'] if f['clause'] == r['detail']['clause']]
+    print('replay registry: %s' % bad)
+    return 1 if bad else 0
+
+
+CHECKS['C15'] = c15
+REPLAYERS['roundtrip'] = replay_roundtrip
+REPLAYERS['registry'] = replay_registry
